@@ -585,6 +585,25 @@ def contractionInputs (bound : List String) (termInputs : List (List String)) : 
 def nestedInputs (bound : List String) (termInputs : List (List String)) : List String :=
   (termInputs.foldr unionNames []).filter fun k => !bound.contains k
 
+/-! ### inputs with their domains: `OrderedDict.update` -/
+
+abbrev Inputs := List (String × Dom)
+
+/-- `d[k] = v` on an OrderedDict: an existing key keeps its position and gets the new value, a new key is appended -/
+def odSet (a : Inputs) (k : String) (v : Dom) : Inputs :=
+  if a.any (fun p => p.1 == k) then a.map (fun p => if p.1 == k then (k, v) else p) else a ++ [(k, v)]
+
+/-- `a.update(b)` -/
+def odUpdate (a b : Inputs) : Inputs := b.foldl (fun acc p => odSet acc p.1 p.2) a
+
+/-- `Contraction.__init__`: `for v in terms: inputs.update((k, d) for k, d in v.inputs.items() if k not in bound)` -/
+def contractionInputsD (bound : List String) (terms : List Inputs) : Inputs :=
+  terms.foldl (fun acc t => odUpdate acc (t.filter fun p => !bound.contains p.1)) []
+
+/-- a name shared by two terms carries the same domain in both (decidable) -/
+def consistent (terms : List Inputs) : Bool :=
+  terms.all fun t1 => terms.all fun t2 => t1.all fun p => t2.all fun q => !(p.1 == q.1) || p.2 == q.2
+
 /-! ## numpy result-shape specification -/
 
 /-- numpy's rule for one pair of aligned dimensions. -/
